@@ -359,3 +359,62 @@ Proof.
       (proj1 (proj2 (e1_read_failed_no_trace s t th R G E)))).
 Qed.
 Print Assumptions C06_read_failed_holds_no_lock.
+
+(* ---- graceful shutdown ([AClose] / [ACloseOk], Commander.Close() = Batcher.Close()) --------------------------------
+   [AClose]: nothing is inside the store call, or its write fails; [ACloseOk]: the batch inside the store call is
+   written, then the generation ends ([APersistOk] followed by [ACrash]). Either way the Terminated() callbacks of the
+   job are not run and the batcher queue is dropped. [reachable] contains closes at every point: all theorems above
+   hold over these schedules as well, unchanged.
+   (i) A close acknowledges nobody: every request keeps the answer it had; a request that had none is never answered
+   ([RCrashed]: its caller gets no success and no error from this commander) -- also when its entry has just been
+   written by the close ([ACloseOk]): persisted but not acknowledged, the direction C06 allows. *)
+Theorem C06_close_answers_nobody : forall s a s', a = AClose \/ a = ACloseOk -> reachable s -> step s a = Some s' ->
+  forall t th', get_thread (threads s') t = Some th' ->
+    exists th, get_thread (threads s) t = Some th /\
+      (t_resp th' = t_resp th \/ (t_resp th = None /\ t_resp th' = Some RCrashed)).
+Proof. exact close_answers_nobody. Qed.
+Print Assumptions C06_close_answers_nobody.
+
+(* (ii) A dropped entry is nowhere: after a close the batcher queue and the worker are empty; the disk is the disk
+   before ([AClose]) or the disk before plus exactly the batch that was inside the store call ([ACloseOk]); no entry
+   that was queued -- and, for [AClose], no entry of the batch in flight -- is on the disk afterwards (uids are unique
+   over disk ++ batch ++ queue, [i_uid]). Their requests are answered [RCrashed] by (i): never acknowledged. *)
+Theorem C06_close_drops : forall s a s', a = AClose \/ a = ACloseOk -> reachable s -> step s a = Some s' ->
+  v_pending s' = [] /\ v_batch s' = None /\
+  (a = AClose -> persisted s' = persisted s) /\
+  (a = ACloseOk -> exists b, v_batch s = Some b /\ persisted s' = persisted s ++ b) /\
+  (forall e, In e (v_pending s) -> ~ In e (persisted s')) /\
+  (a = AClose -> forall b e, v_batch s = Some b -> In e b -> ~ In e (persisted s')).
+Proof. exact close_drops. Qed.
+Print Assumptions C06_close_drops.
+
+(* (iii) non-vacuity (E1V0.sched_close): request 0 funds account 1 (tx 0, acknowledged, published). Request 1 (create)
+   has its entry in the batch inside the store call; requests 2 (create) and 3 (SaveMeta) have theirs queued behind it;
+   all three wait. [ACloseOk]: the disk is the funding entry and the entry of 1 (id 1, tx 1); 1, 2 and 3 are answered
+   [RCrashed]; queue and worker are empty; no event of 1, 2 or 3; the next generation starts at the head of the disk
+   with last transaction id 1. [AClose]: the disk is the funding entry only; last transaction id 0. *)
+Example C06_close_example :
+  (exists s, run init sched_close = Some s /\
+     map (fun p => (fst p, t_pc (snd p), t_resp (snd p))) (threads s) =
+       [(0, PFinished, Some (ROk (Some 0))); (1, PWait, None); (2, PWait, None); (3, PWait, None)] /\
+     map e_owner (persisted s) = [0] /\ option_map (map e_owner) (v_batch s) = Some [1] /\
+     map (fun e => (e_owner e, e_kind e)) (v_pending s) = [(2, KCreate); (3, KSaveMeta)] /\
+     map ev_tid (published s) = [0]) /\
+  (exists s, run init (sched_close ++ [ACloseOk]) = Some s /\
+     map (fun p => (fst p, t_pc (snd p), t_resp (snd p))) (threads s) =
+       [(0, PFinished, Some (ROk (Some 0))); (1, PFinished, Some RCrashed); (2, PFinished, Some RCrashed);
+        (3, PFinished, Some RCrashed)] /\
+     map (fun e => (e_owner e, e_id e, e_txid e)) (persisted s) = [(0, 0, Some 0); (1, 1, Some 1)] /\
+     v_batch s = None /\ v_pending s = [] /\ map ev_tid (published s) = [0] /\ gen s = 1 /\
+     v_last s = last_entry (persisted s) /\ v_lasttx s = Some 1) /\
+  (exists s, run init (sched_close ++ [AClose]) = Some s /\
+     map (fun p => (fst p, t_pc (snd p), t_resp (snd p))) (threads s) =
+       [(0, PFinished, Some (ROk (Some 0))); (1, PFinished, Some RCrashed); (2, PFinished, Some RCrashed);
+        (3, PFinished, Some RCrashed)] /\
+     map (fun e => (e_owner e, e_id e, e_txid e)) (persisted s) = [(0, 0, Some 0)] /\
+     v_batch s = None /\ v_pending s = [] /\ map ev_tid (published s) = [0] /\ gen s = 1 /\
+     v_last s = last_entry (persisted s) /\ v_lasttx s = Some 0).
+Proof.
+  split; [|split]; (eexists; split; [vm_compute; reflexivity|]); vm_compute; repeat split; reflexivity.
+Qed.
+Print Assumptions C06_close_example.
